@@ -158,6 +158,8 @@ type udpRun struct {
 	specs    map[string]*uSpec
 	specList []*uSpec
 	which    string
+	// empty-payload datagrams by their (unique) destination port
+	emptyByPort map[int]*uSpec
 }
 
 // f records a violation only when the scenario decides the property the oracle
@@ -237,7 +239,7 @@ func runUDP(rc *RunCtx, which string) {
 		simrt.Probe("two_listeners_one_handler")
 	}
 	srv := startUDPServer(rc, w, udpServerOpts{Keys: cfg, Timeout: 5 * time.Minute, Metrics: m, Listeners: nL})
-	r := &udpRun{which: which, rc: rc, w: w, srv: srv, keys: cfg, tspecs: map[string]*tSpec{}, specs: map[string]*uSpec{}}
+	r := &udpRun{which: which, rc: rc, w: w, srv: srv, keys: cfg, tspecs: map[string]*tSpec{}, specs: map[string]*uSpec{}, emptyByPort: map[int]*uSpec{}}
 	// targets
 	nT := 1 + G.Draw(3)
 	var targets []*simnet.UDPConn
@@ -361,9 +363,16 @@ func runUDP(rc *RunCtx, which string) {
 				psz = []int{8000, 60000, 65000}[G.Draw(3)]
 			}
 			s.payload = append([]byte(s.id+"|"), payload(G, psz)...)
-			if psz == 0 && G.Draw(2) == 0 && nL == 1 {
-				s.payload = nil // truly empty payload (address only); identified by absence of id
+			if psz == 0 && G.Draw(2) == 0 {
+				// truly empty payload (address only): it carries no id, so it is
+				// identified by a destination port no other datagram uses
+				s.payload = nil
 				s.id = s.id + "-empty"
+				if s.destOK {
+					s.dest = &net.UDPAddr{IP: ta.IP, Port: 10000 + len(r.specList)}
+					s.destStr = s.dest.String()
+					r.emptyByPort[s.dest.Port] = s
+				}
 			}
 			var plain []byte
 			if s.kind == "badaddr" {
@@ -418,7 +427,15 @@ func runUDP(rc *RunCtx, which string) {
 			}
 		})
 	}
-	simrt.Quiesce()
+	if G.Draw(2) == 0 {
+		// settle without letting the associations expire (NAT timeout 5 min, all
+		// delays are below a second): the listener is then shut down with live
+		// associations
+		simrt.Sleep(10 * time.Second)
+		simrt.Probe("shutdown_with_live_associations")
+	} else {
+		simrt.Quiesce()
+	}
 	rc.Phase = "check"
 	r.check(which)
 	rc.Phase = "stop"
@@ -447,7 +464,6 @@ func (r *udpRun) check(which string) {
 			byRec[s.rec] = s
 		}
 	}
-	var expOrder []*uSpec // expected forwards in processing order
 	// ---- reference model: walk what the proxy socket actually read, in order ----
 	nat := map[string]*assoc{}
 	var assocs []*assoc
@@ -495,7 +511,6 @@ func (r *udpRun) check(which string) {
 		c := UCall{Kind: "fromclient", Status: status, A: int64(len(s.wire))}
 		if status == "OK" {
 			expFwd[s]++
-			expOrder = append(expOrder, s)
 			c.B = int64(len(s.payload))
 		}
 		a.fromClient = append(a.fromClient, c)
@@ -509,7 +524,6 @@ func (r *udpRun) check(which string) {
 	sockOf := map[*uClient]map[*simnet.UDPConn]bool{}
 	ownerOf := map[*simnet.UDPConn]map[*uClient]bool{}
 	var replies []*simnet.DgramRec
-	nOut := 0
 	for _, d := range w.Dgrams {
 		if d.FromSock.Foreign {
 			continue
@@ -524,14 +538,8 @@ func (r *udpRun) check(which string) {
 		if id != "" {
 			s = r.specs[id]
 		} else if len(d.Payload) == 0 {
-			// Empty payload carries no id. The handler forwards synchronously in
-			// its read loop, so the j-th outbound datagram is the j-th expected
-			// forward of the reference model.
-			if len(srv.Socks) == 1 && nOut < len(expOrder) && expOrder[nOut].payload == nil {
-				s = expOrder[nOut]
-			}
+			s = r.emptyByPort[d.To.Port]
 		}
-		nOut++
 		if s == nil {
 			r.f("c03", "c03:forwarded-unknown-payload", "proxy sent %d bytes to %v that match no client datagram's payload (first bytes %q)", len(d.Payload), d.To, d.Payload[:minInt(24, len(d.Payload))])
 			continue
@@ -585,13 +593,20 @@ func (r *udpRun) check(which string) {
 			outSocks = append(outSocks, sk)
 		}
 	}
-	if len(outSocks) != len(assocs) {
+	// sockets that carried traffic (a socket that never sends is no association)
+	usedSocks := map[*simnet.UDPConn]bool{}
+	for _, d := range w.Dgrams {
+		if !d.FromSock.Foreign && !srv.isListen(d.FromSock) {
+			usedSocks[d.FromSock] = true
+		}
+	}
+	if len(usedSocks) > len(assocs) {
 		p := "c04"
 		if which != "c04" {
 			p = "c03"
 		}
 		if which != "c16" {
-			rc.Failf(p+":outbound-socket-count", "%d outbound sockets were created, the reference model has %d associations (authenticated first datagrams with an allowed destination)", len(outSocks), len(assocs))
+			rc.Failf(p+":outbound-socket-count", "%d outbound sockets carried traffic, the reference model has %d associations (authenticated first datagrams with an allowed destination)", len(usedSocks), len(assocs))
 		}
 	}
 	// ---- replies ----
